@@ -32,7 +32,7 @@ def p2p(mo=False, aml=None):
 
 
 INST_CONST = {'Own': ('<-', 'MC_Own'), 'OwnP': ('<-', 'MC_OwnP'), 'Q0': ('<-', 'MC_Q0'), 'TP0': ('<-', 'MC_TP0'),
-              'SO0': False, 'PTrace': False, 'Fwd': False, 'EmptyOnBmca': False, 'DevDup': True}
+              'SO0': False, 'PTrace': False, 'Fwd': False, 'EmptyOnBmca': False, 'DevDup': True, 'SeqMod': 65536, 'Ghost': True}
 
 # variants of the instance configuration shared by several properties: name -> (constants, world)
 INST_VARIANTS = {
@@ -482,7 +482,62 @@ def check_C07(tier, seed):
                                    'Delay_Resp for another requester, Sync on the general channel'])
 
 
+
+def check_C12(tier, seed):
+    t0 = time.time()
+    build('dev')
+    v = Verdict('C12')
+    acc = Acc()
+    q = tier == 'quick'
+    owns = ['out.T', 'pend', 'out.len']
+    base = dict(INST_CONST)
+    base.update({'WithPd': False, 'Emitting': True, 'FreeBudget': 0})
+    def c(pcfg, **kw):
+        d = dict(base)
+        d['PCfg'] = ('<-', pcfg)
+        d.update(kw)
+        return d
+    inv = ['NoOrphanWaitButKnown']
+    # safety + conformance: the instance composed with a host that obeys timer actions
+    run_inst_suite('C12', v, acc, 'C12-host-e2e', 'MCHost', c('PCfg_E'), world([e2e()]), 8 if q else 10, seed, owns, ['C12'], invariants=inv)
+    run_inst_suite('C12', v, acc, 'C12-host-two-ports', 'MCHost', c('PCfg_B'), world([e2e(), e2e(mo=True)]), 6 if q else 8, seed, owns, ['C12'], invariants=inv)
+    run_inst_suite('C12', v, acc, 'C12-host-p2p', 'MCHost', c('PCfg_P', WithPd=True), world([p2p()]), 8 if q else 10, seed, owns, ['C12'], invariants=inv)
+    run_inst_suite('C12', v, acc, 'C12-host-p2p-sim', 'MCHost', c('PCfg_P', WithPd=True), world([p2p()]), 70, seed, owns, ['C12'], invariants=inv,
+                   simulate=(20 if q else 400, 60))
+    # the strict invariant fails only through the recorded finding (P2P port: master by timeout -> faulty -> recovery)
+    plain_tlc('C12', v, acc, 'C12-strict-p2p', 'MCHost', c('PCfg_P', WithPd=True, Depth=9 if q else 11), invariants=['NoOrphanWait'], expect_violation='NoOrphanWait')
+    # liveness on the continuation model (finite: sequence ids and ghost bookkeeping dropped), no state constraint
+    live = dict(base)
+    live.update({'SeqMod': 1, 'Ghost': False, 'Emitting': False, 'Depth': 0, 'FreeBudget': 6 if q else 0})
+    for name, pcfg, budget in ([('C12-live-e2e', 'PCfg_E', 6)] if q else [('C12-live-e2e', 'PCfg_E', 0), ('C12-live-two-ports', 'PCfg_B', 7), ('C12-live-p2p-port', 'PCfg_P', 9)]):
+        cc = dict(live)
+        cc['PCfg'] = ('<-', pcfg)
+        cc['FreeBudget'] = budget
+        cfg = os.path.join(outdir('cfg'), name + '.cfg')
+        write_cfg(cfg, spec='LiveSpec', constants=cc, invariants=['NoOrphanWait'], properties=['LiveSilence', 'LiveSilenceSlaveOnly', 'LiveSteady'], action_constraint='Norm')
+        stats, text = run_tlc('MCHost.tla', cfg, name, workers=8, timeout=3000)
+        if stats['errors'] and not stats['violated']:
+            raise ToolError('TLC error in %s: %s' % (name, stats['errors'][:2]))
+        acc.add(name, stats)
+        if stats['violated']:
+            stats['text_trace'] = vlib.extract_trace(text)
+            p = write_tlc_counterexample('C12', name, stats)
+            v.add({'kind': 'tlc', 'key': 'tlc:live:' + ','.join(stats['violated']), 'detail': 'TLC: liveness/safety violated in %s' % name, 'replay': p, 'suite': name})
+    # bounded form of the liveness claims on the real code, virtual time
+    hs = run_driver('hostsim', ['--seed', str(seed), '--runs', '1500' if q else '40000'], 'C12-hostsim', timeout=1800)
+    acc.suites.append({'suite': 'C12-hostsim', 'driver': 'harness/src/bin/hostsim.rs', 'result': {k: hs[k] for k in hs if k != 'violations'}})
+    acc.edges += hs.get('runs', 0)
+    for item in hs.get('violations', []):
+        v.add({'kind': 'predicate', 'key': 'C12/hostsim' + ('-orphan-recovered' if item.get('known') else ''), 'detail': item['detail'], 'replay': item['replay']})
+    return finish('C12', tier, seed, 'model_checking', v, acc, t0,
+                  EDGE_RULE + '; plus virtual-time continuations of random real histories with (a) silence and (b) a steady better master',
+                  COMMON_ASSUME + ['the host arms exactly the timers the returned actions request and a timer fires only while armed (statime-linux main.rs)',
+                                   'weak fairness of every armed timer and of BMCA runs; in the steady scenario one Announce and one BMCA per round and no receipt timeout',
+                                   'liveness model: sequence ids modulo 1 and no ghost bookkeeping (finite without a depth bound)'])
+
+
 CHECKS = {
+    'C12': check_C12,
     'C07': check_C07,
     'C10': check_C10,
     'C11': check_C11,
